@@ -174,6 +174,10 @@ partial def loop (h : IO.FS.Stream) (out : IO.FS.Stream) (c : Config) (st : Stat
   | _ =>
     match parseOps c toks with
     | some ops =>
+      -- `lossrec`: the listener reconnects only if there was a loss
+      let ops := match toks, ops with
+        | "lossrec" :: _, first :: _ => if (step c st first).2 == [Obs.invalid] then [first] else ops
+        | _, _ => ops
       let (st', o) := run c st ops
       -- the result of login() is visible to its caller only: not for the automatic re-login of the watchdog
       let showRes := match ops with | [.login] | [.loginBreak _ _ _] => true | _ => false
